@@ -456,7 +456,14 @@ func (w *worker) process(in input, seed uint64, sampleMod uint32) {
 		fmt.Fprintf(h, "lint|%d|%s", seed, src)
 		if h.Sum32()%lm == 0 {
 			w.linted++
-			if lr := lintOracle(w.linter, src, ir); !lr.ok {
+			lr := lintOracle(w.linter, src, ir)
+			if lr.ok {
+				if _, ok := ifEmbeddable(src); ok {
+					w.dist["linted_as_if_condition"]++
+					lr = ifOracle(w.linter, src, ir)
+				}
+			}
+			if !lr.ok {
 				if len(w.fails) < 2000 {
 					w.fails = append(w.fails, failure{What: lr.what, Key: "lint:" + src, Input: src, Kind: in.kind, Impl: lr.got, Want: "exactly one expression diagnostic inside the placeholder iff the text is rejected"})
 				}
@@ -541,6 +548,12 @@ func main() {
 		if embeddable(f.Input) {
 			lr := lintOracle(newLinter(), f.Input, ir)
 			fmt.Printf("through Linter.Lint (text embedded after ${{ in a workflow): %s\n", lr.got)
+			if lr.ok {
+				if _, ok := ifEmbeddable(f.Input); ok {
+					lr = ifOracle(newLinter(), f.Input, ir)
+					fmt.Printf("through Linter.Lint (text as an if: condition): %s\n", lr.got)
+				}
+			}
 			if !lr.ok {
 				fmt.Printf("REPLAY: property violated: %s\n", lr.what)
 				os.Exit(1)
